@@ -28,26 +28,30 @@ abbrev Row := List Field
 
 /-! ### writer (encoding/csv Writer.Write, fieldNeedsQuotes) -/
 
-def isSpecial (c : Char) : Bool := c == '\n' || c == '\r' || c == '"' || c == ','
+/-- `d` is the delimiter (Writer.Comma / Reader.Comma), ',' unless the `comma` option names another -/
+def isSpecial (d : Char) (c : Char) : Bool := c == '\n' || c == '\r' || c == '"' || c == d
 
-def needsQuotes (f : Field) : Bool :=
+def needsQuotes (d : Char) (f : Field) : Bool :=
   match f with
   | [] => false
-  | c :: _ => f == ['\\', '.'] || f.any isSpecial || uniSpace c
+  | c :: _ => f == ['\\', '.'] || f.any (isSpecial d) || uniSpace c
 
 def escQuote (c : Char) : List Char := if c == '"' then ['"', '"'] else [c]
 
-def writeField (f : Field) : List Char :=
-  if needsQuotes f then '"' :: f.flatMap escQuote ++ ['"'] else f
+def writeField (d : Char) (f : Field) : List Char :=
+  if needsQuotes d f then '"' :: f.flatMap escQuote ++ ['"'] else f
 
-def writeFields : Row → List Char
+def writeFields (d : Char) : Row → List Char
   | [] => []
-  | [f] => writeField f
-  | f :: rest => writeField f ++ ',' :: writeFields rest
+  | [f] => writeField d f
+  | f :: rest => writeField d f ++ d :: writeFields d rest
 
-def writeRow (r : Row) : List Char := writeFields r ++ ['\n']
+def writeRow (d : Char) (r : Row) : List Char := writeFields d r ++ ['\n']
 
-def toCsv (rows : List Row) : List Char := rows.flatMap writeRow
+def toCsvWith (d : Char) (rows : List Row) : List Char := rows.flatMap (writeRow d)
+
+/-- `to_csv` with the default delimiter -/
+def toCsv (rows : List Row) : List Char := toCsvWith ',' rows
 
 /-! ### reader -/
 
@@ -70,67 +74,81 @@ structure FieldEnd where
   last : Bool
 
 /-- non-quoted field: up to ',' or the end of the line -/
-def readUnquoted : List Char → FieldEnd
+def readUnquoted (d : Char) : List Char → FieldEnd
   | [] => ⟨[], [], true⟩
   | c :: r =>
-    if c == ',' then ⟨[], r, false⟩
+    if c == d then ⟨[], r, false⟩
     else if c == '\n' then ⟨[], r, true⟩
-    else let e := readUnquoted r; ⟨c :: e.field, e.rest, e.last⟩
+    else let e := readUnquoted d r; ⟨c :: e.field, e.rest, e.last⟩
 
 /-- after the opening quote (`acc` reversed) -/
-def readQuoted : List Char → List Char → FieldEnd
+def readQuoted (d : Char) : List Char → List Char → FieldEnd
   | [], acc => ⟨acc.reverse, [], true⟩
   | c :: r, acc =>
     if c == '"' then
       match r with
       | [] => ⟨acc.reverse, [], true⟩
-      | d :: r' =>
-        if d == '"' then readQuoted r' ('"' :: acc)
-        else if d == ',' then ⟨acc.reverse, r', false⟩
-        else if d == '\n' then ⟨acc.reverse, r', true⟩
-        else readQuoted r' (d :: '"' :: acc)
-    else readQuoted r (c :: acc)
+      | e :: r' =>
+        if e == '"' then readQuoted d r' ('"' :: acc)
+        else if e == d then ⟨acc.reverse, r', false⟩
+        else if e == '\n' then ⟨acc.reverse, r', true⟩
+        else readQuoted d r' (e :: '"' :: acc)
+    else readQuoted d r (c :: acc)
 
 /-- TrimLeadingSpace: white space other than the line end -/
 def trimLead : List Char → List Char
   | [] => []
   | c :: r => if uniSpace c && c != '\n' then trimLead r else c :: r
 
-def readField (t : List Char) : FieldEnd :=
-  match trimLead t with
+/-- `trim` = Reader.TrimLeadingSpace: true, except that fq switches it off when the delimiter
+    itself is white space (csv.go:56-60, since /repo 4cd46826 — before, a tab or space delimiter in
+    front of an empty field was trimmed away and the field was lost) -/
+def trimOf (d : Char) : Bool := !uniSpace d
+
+def readField (d : Char) (t : List Char) : FieldEnd :=
+  match (if trimOf d then trimLead t else t) with
   | [] => ⟨[], [], true⟩
-  | c :: r => if c == '"' then readQuoted r [] else readUnquoted (c :: r)
+  | c :: r => if c == '"' then readQuoted d r [] else readUnquoted d (c :: r)
 
 /-- the fields of one record (fuel: a field consumes at least one character unless it ends the record) -/
-def readRecord : Nat → List Char → Row → Row × List Char
+def readRecord (d : Char) : Nat → List Char → Row → Row × List Char
   | 0, t, acc => (acc.reverse, t)
   | fuel + 1, t, acc =>
-    let e := readField t
-    if e.last then ((e.field :: acc).reverse, e.rest) else readRecord fuel e.rest (e.field :: acc)
+    let e := readField d t
+    if e.last then ((e.field :: acc).reverse, e.rest) else readRecord d fuel e.rest (e.field :: acc)
 
 def skipLine : List Char → List Char
   | [] => []
   | c :: r => if c == '\n' then r else skipLine r
 
 /-- all records; `n` = the number of fields fixed by the first record -/
-def readAll : Nat → List Char → Option Nat → List Row → Option (List Row)
+def readAll (d : Char) : Nat → List Char → Option Nat → List Row → Option (List Row)
   | 0, _, _, _ => none
   | fuel + 1, t, n, acc =>
     match t with
     | [] => some acc.reverse
     | c :: r =>
-      if c == '#' then readAll fuel (skipLine r) n acc
-      else if c == '\n' then readAll fuel r n acc
+      if c == '#' then readAll d fuel (skipLine r) n acc
+      else if c == '\n' then readAll d fuel r n acc
       else
-        let (row, rest) := readRecord (t.length + 1) t []
+        let (row, rest) := readRecord d (t.length + 1) t []
         match n with
-        | none => readAll fuel rest (some row.length) (row :: acc)
-        | some k => if row.length == k then readAll fuel rest n (row :: acc) else none
+        | none => readAll d fuel rest (some row.length) (row :: acc)
+        | some k => if row.length == k then readAll d fuel rest n (row :: acc) else none
+
+/-- `from_csv({comma: …})` with delimiter d (comment character '#') -/
+def fromCsvWith (d : Char) (t : List Char) : Option (List Row) :=
+  let t := normCRLF t
+  readAll d (t.length + 1) t none []
 
 /-- `from_csv` -/
-def fromCsv (t : List Char) : Option (List Row) :=
-  let t := normCRLF t
-  readAll (t.length + 1) t none []
+def fromCsv (t : List Char) : Option (List Row) := fromCsvWith ',' t
+
+/-- REGRESSION MODEL (before /repo 4cd46826): always trimming -/
+def readFieldTrimAlways (d : Char) (t : List Char) : FieldEnd :=
+  match trimLead t with
+  | [] => ⟨[], [], true⟩
+  | c :: r => if c == '"' then readQuoted d r [] else readUnquoted d (c :: r)
 
 
 /-! ### the `comma` option (format/csv/csv.go:56-58 decodeCSV, :83-85 toCSV): BOTH directions take the
